@@ -105,7 +105,8 @@ func H_C16_ByName() {
 	exactly(nl, nl.GetNodesByName(q), crit, "C16.byname")
 }
 
-var c16idTypes = []string{"purl", "cpe23", "cpe22", "cpe2.3", "gitoid", " CPE23 ", "nonsense", ""}
+// every documented spelling of the identifier kinds: the SPDX external-reference type names and the short forms
+var c16idTypes = []string{"purl", "cpe23", "cpe22", "cpe2.3", "gitoid", " CPE23 ", "nonsense", "", "cpe23Type", "cpe22Type", "cpe2.2", "CPE22"}
 
 func H_C16_ByIdentifier() {
 	nl := c16list(false, rt.Bound("N", 3, 3))
@@ -115,9 +116,9 @@ func H_C16_ByIdentifier() {
 	switch ti {
 	case 0:
 		key = purlKey
-	case 1, 3, 5:
+	case 1, 3, 5, 8:
 		key = int32(sbom.SoftwareIdentifierType_CPE23)
-	case 2:
+	case 2, 9, 10, 11:
 		key = int32(sbom.SoftwareIdentifierType_CPE22)
 	case 4:
 		key = int32(sbom.SoftwareIdentifierType_GITOID)
